@@ -1,5 +1,7 @@
 import Qhttp.Props.C01
 import Qhttp.Model.Http
+import Qhttp.Lemmas.C04Phase1
+import Qhttp.Lemmas.C04Log
 /-
   C04 — malformed requests get one 400 and are never routed, however they arrive.
 -/
@@ -31,5 +33,386 @@ def holds (env : Env) (sc : Scenario) (obs : List Obs) : Bool :=
   Obs.countP Obs.isTc obs == 1 &&
   -- nothing reaches the wire after the library closed the transport
   Obs.countP Obs.isW (obs.dropWhile (fun o => !Obs.isTc o)) == 0
+
+end Qhttp.C04
+
+/-! ## Theorems -/
+
+namespace Qhttp.C04
+open Qhttp
+
+/-- observations an application `note` may record without touching what C04 looks at -/
+def quietObs : Obs → Bool
+  | .hp => false | .crash => false | .tc => false | .w _ => false
+  | .mw _ _ => false | .rt _ _ => false | .pr _ _ => false | .slot _ _ => false
+  | _ => true
+
+def quietOp : ApiOp → Bool
+  | .note o => quietObs o
+  | _ => true
+
+/-- the application class: arbitrary reactions (functions of the socket state) to every signal,
+    making any API calls whatever (writes, closes, reads, ...); routing, `hp`, `crash`, `tc`, `w`
+    are recorded by nobody but (possibly) the `headersParsed` slot, which is unconstrained. -/
+structure AppOK (app : App) : Prop where
+  rr  : ∀ s, (app.onRr s).all quietOp = true
+  rcf : ∀ s, (app.onRcf s).all quietOp = true
+  bw  : ∀ s, (app.onBw s).all quietOp = true
+  dc  : ∀ s, (app.onDc s).all quietOp = true
+
+/-- the events by which the request stream arrives -/
+def arrival : Event → Bool
+  | .prebuf _ => true | .new => true | .feed _ => true | .turn => true | _ => false
+
+/-- anything that may happen afterwards -/
+def lateEv : Event → Bool
+  | .api op => quietOp op
+  | _ => true
+
+/-- every byte handed to the transport has been passed on to the Socket: after the last `prebuf`
+    there is a `feed`, or a `turn` that runs the initial read queued by `new` -/
+def flushedAux : (pending queued : Bool) → List Event → Bool
+  | p, _, [] => !p
+  | _, q, .prebuf _ :: r => flushedAux true q r
+  | p, _, .new :: r => flushedAux p true r
+  | _, q, .feed _ :: r => flushedAux false q r
+  | p, q, .turn :: r => if q then flushedAux false false r else flushedAux p q r
+  | p, q, _ :: r => flushedAux p q r
+
+def flushed (evs : List Event) : Bool := flushedAux false false evs
+
+/-! ### bridges to the model lemmas (`Qhttp/Lemmas/C04*.lean`) -/
+
+open C04L
+
+theorem quietObs_eq : quietObs = qObs := by
+  funext o; cases o <;> rfl
+
+theorem quietOp_eq : quietOp = qOp := by
+  funext op; cases op <;> simp [quietOp, qOp, quietObs_eq]
+
+theorem AppOK.toQ {app : App} (h : AppOK app) : AppQ app :=
+  ⟨by simpa [quietOp_eq] using h.rr, by simpa [quietOp_eq] using h.rcf,
+   by simpa [quietOp_eq] using h.bw, by simpa [quietOp_eq] using h.dc⟩
+
+theorem lateEv_api {e : Event} (h : lateEv e = true) : ∀ op, e = .api op → qOp op = true := by
+  intro op he
+  subst he
+  simpa [lateEv, quietOp_eq] using h
+
+theorem arrival_api {e : Event} (h : arrival e = true) : ∀ op, e = .api op → qOp op = true := by
+  intro op he
+  subst he
+  simp [arrival] at h
+
+theorem fed_append (a c : List Event) :
+    Scenario.fed (a ++ c) = Scenario.fed a ++ Scenario.fed c := by
+  simp [Scenario.fed]
+
+theorem fed_cons (e : Event) (c : List Event) :
+    Scenario.fed (e :: c) = Scenario.fed [e] ++ Scenario.fed c := fed_append [e] c
+
+/-- what `malformed` says: the first blank line ends a head the parser or `QUrl` rejects -/
+theorem malformed_bad {env : Env} {stream : Bytes} (h : malformed env stream = true) :
+    ∃ head rest, breakOn CRLF2 stream = some (head, rest) ∧ BadHead env head := by
+  unfold malformed C01.headOf at h
+  cases hb : breakOn CRLF2 stream with
+  | none => simp [hb] at h
+  | some p =>
+    obtain ⟨head, rest⟩ := p
+    refine ⟨head, rest, rfl, ?_⟩
+    simp only [hb, Option.map_some] at h
+    intro rh hrh
+    unfold C01.expect at h
+    rw [hrh] at h
+    simp only at h
+    cases hu : env.url rh.rawPath with
+    | none => rfl
+    | some pq => obtain ⟨p, q⟩ := pq; simp [hu] at h
+
+/-- the response of phase 2 satisfies the predicate -/
+theorem holds_of_done (env : Env) (sc : Scenario) (s : Sock) (h : Done (W400 env) s) :
+    holds env sc s.log = true := by
+  obtain ⟨f1, f2, f3, f4, f5, f6⟩ := h.2.2.facts
+  have hd := natDigits_all (body400 env).length
+  have hparse : Http.parse (Obs.wire s.log) =
+      some (msg400 (natDigits (body400 env).length) (body400 env)) := by
+    rw [f4]; exact parse_head400 _ _ hd
+  have hcl : contentLengthOK (msg400 (natDigits (body400 env).length) (body400 env)) = true := by
+    unfold contentLengthOK
+    simp only [msg400, valuesOf_cl _ hd, hd, digitsVal_natDigits, Bool.true_and, beq_self_eq_true,
+      Bool.and_true]
+    have := natDigits_ne_nil (body400 env).length
+    cases hn : natDigits (body400 env).length with
+    | nil => exact absurd hn this
+    | cons _ _ => rfl
+  unfold holds
+  split
+  · rfl
+  · rw [f1, f2, f3, f5, f6, hparse]
+    simp only [msg400] at hcl
+    simp only [msg400, statusLine_start400, hcl]
+    rfl
+
+/-- phase 1: arrival events on a fresh socket either answer 400 or leave it fresh; in the
+    second case a flushed arrival means the whole stream has no blank line -/
+theorem phase1 (env : Env) {app : App} (ha : AppQ app) (total : Bytes)
+    (hbad : ∀ h r, breakOn CRLF2 total = some (h, r) → BadHead env h) :
+    ∀ (arr : List Event) (sk : Sock × Nat) (p : Bool), arr.all arrival = true → Fresh sk.1 →
+      (p = false → sk.1.tcp.inbox = []) →
+      sk.1.readBuffer ++ sk.1.tcp.inbox ++ Scenario.fed arr = total →
+      Done (W400 env) (arr.foldl (Sock.stepK env app) sk).1 ∨
+      (flushedAux p sk.1.initPending arr = true → breakOn CRLF2 total = none) := by
+  intro arr
+  induction arr with
+  | nil =>
+    intro sk p _ hf hp htot
+    right
+    intro hfl
+    simp [flushedAux] at hfl
+    have := hp hfl
+    rw [← htot, this]
+    simpa [Scenario.fed] using hf.nobrk
+  | cons e arr ih =>
+    intro sk p harr hf hp htot
+    simp only [List.all_cons, Bool.and_eq_true] at harr
+    obtain ⟨he, harr⟩ := harr
+    have hrest : ∀ e' ∈ arr, ∀ op, e' = .api op → qOp op = true := fun e' he' =>
+      arrival_api (List.all_eq_true.mp harr e' he')
+    have hpre : ∀ (buf tail : Bytes), buf ++ tail = total →
+        ∀ h r, breakOn CRLF2 buf = some (h, r) → BadHead env h := by
+      intro buf tail hbt h r hb
+      apply hbad h (r ++ tail)
+      rw [← hbt]; exact breakOn_append tail hb
+    rw [fed_cons] at htot
+    simp only [List.foldl_cons]
+    have hsk : (Sock.stepK env app sk e).1 = Sock.step env app (marked sk) e :=
+      stepK_alive env app sk e hf.alive
+    have hm := hf.marked
+    cases e with
+    | prebuf bs =>
+      obtain ⟨g1, g2, g3, g4⟩ := hm.step_prebuf env app bs
+      rw [← hsk] at g1 g2 g3 g4
+      have := ih (Sock.stepK env app sk (.prebuf bs)) true harr g1 (by simp)
+        (by rw [g2, g3, ← htot]; simp [Scenario.fed])
+      rw [g4] at this
+      simpa [flushedAux] using this
+    | new =>
+      obtain ⟨g1, g2, g3, g4⟩ := hm.step_new env app
+      rw [← hsk] at g1 g2 g3 g4
+      have := ih (Sock.stepK env app sk .new) p harr g1 (by rw [g3]; simpa using hp)
+        (by rw [g2, g3, ← htot]; simp [Scenario.fed])
+      rw [g4] at this
+      simpa [flushedAux] using this
+    | feed seg =>
+      have hb' := hpre (sk.1.readBuffer ++ (sk.1.tcp.inbox ++ seg)) (Scenario.fed arr)
+        (by rw [← htot]; simp [Scenario.fed])
+      rcases hm.step_feed env ha seg hb' with ⟨g1, g2, g3, g4⟩ | hd
+      · rw [← hsk] at g1 g2 g3 g4
+        have := ih (Sock.stepK env app sk (.feed seg)) false harr g1 (fun _ => g3)
+          (by rw [g2, g3, ← htot]; simp [Scenario.fed])
+        rw [g4] at this
+        simpa [flushedAux] using this
+      · left
+        rw [← hsk] at hd
+        exact Done.steps_ok env ha arr _ hd hrest
+    | turn =>
+      have hb' := hpre (sk.1.readBuffer ++ sk.1.tcp.inbox) (Scenario.fed arr)
+        (by rw [← htot]; simp [Scenario.fed])
+      rcases hm.step_turn env ha hb' with ⟨g1, g2, g3⟩ | hd
+      · rw [← hsk] at g1 g2 g3
+        cases hq : sk.1.initPending with
+        | true =>
+          simp only [marked_initPending, hq, if_true] at g3
+          have := ih (Sock.stepK env app sk .turn) false harr g1 (fun _ => g3.2)
+            (by rw [g3.1, g3.2, ← htot]; simp [Scenario.fed])
+          rw [g2] at this
+          simpa [flushedAux] using this
+        | false =>
+          simp only [marked_initPending, hq, Bool.false_eq_true, if_false] at g3
+          have := ih (Sock.stepK env app sk .turn) p harr g1 (by rw [g3.2]; exact hp)
+            (by rw [g3.1, g3.2, ← htot]; simp [Scenario.fed])
+          rw [g2] at this
+          simpa [flushedAux] using this
+      · left
+        rw [← hsk] at hd
+        exact Done.steps_ok env ha arr _ hd hrest
+    | ack n => simp [arrival] at he
+    | ackAll => simp [arrival] at he
+    | peerClose => simp [arrival] at he
+    | api op => simp [arrival] at he
+
+theorem fresh_init : Fresh ({} : Sock) :=
+  ⟨rfl, rfl, rfl, rfl, rfl, rfl, rfl, rfl, rfl, by decide⟩
+
+/-- General form: the stream arrives by any mix of `prebuf`/`new`/`feed`/`turn` that ends up
+    delivering every byte; afterwards anything at all may happen. -/
+theorem holds_run (env : Env) (app : App) (arr late : List Event)
+    (happ : AppOK app)
+    (harr : arr.all arrival = true) (hfl : flushed arr = true)
+    (hmal : malformed env (Scenario.fed arr) = true)
+    (hlate : late.all lateEv = true) :
+    holds env ⟨app, arr ++ late⟩ (Scenario.run env ⟨app, arr ++ late⟩).log = true := by
+  have ha := happ.toQ
+  obtain ⟨head, rest, hbrk, hbh⟩ := malformed_bad hmal
+  have hbad : ∀ h r, breakOn CRLF2 (Scenario.fed arr) = some (h, r) → BadHead env h := by
+    intro h r hb
+    rw [hbrk] at hb
+    simp only [Option.some.injEq, Prod.mk.injEq] at hb
+    rw [← hb.1]; exact hbh
+  have hmid : Done (W400 env) (arr.foldl (Sock.stepK env app) (({} : Sock), 0)).1 := by
+    rcases phase1 env ha (Scenario.fed arr) hbad arr (({} : Sock), 0) false harr fresh_init
+      (fun _ => rfl) (by simp) with hd | hn
+    · exact hd
+    · have := hn hfl
+      rw [hbrk] at this
+      exact absurd this (by simp)
+  apply holds_of_done
+  show Done (W400 env) ((arr ++ late).foldl (Sock.stepK env app) (({} : Sock), 0)).1
+  rw [List.foldl_append]
+  exact Done.steps_ok env ha late _ hmid
+    (fun e he => lateEv_api (List.all_eq_true.mp hlate e he))
+
+/-! ### the shapes of the property statement -/
+
+theorem fed_feeds (l : List Bytes) : Scenario.fed (l.map Event.feed) = l.flatten := by
+  induction l with
+  | nil => rfl
+  | cons x l ih => rw [List.map_cons, fed_cons, ih]; simp [Scenario.fed]
+
+theorem fed_prebufs (l : List Bytes) : Scenario.fed (l.map Event.prebuf) = l.flatten := by
+  induction l with
+  | nil => rfl
+  | cons x l ih => rw [List.map_cons, fed_cons, ih]; simp [Scenario.fed]
+
+theorem arrival_feeds (l : List Bytes) : (l.map Event.feed).all arrival = true := by
+  simp [List.all_map, arrival]
+
+theorem arrival_prebufs (l : List Bytes) : (l.map Event.prebuf).all arrival = true := by
+  simp [List.all_map, arrival]
+
+theorem flushedAux_feeds (q : Bool) (l : List Bytes) :
+    flushedAux false q (l.map Event.feed) = true := by
+  induction l with
+  | nil => simp [flushedAux]
+  | cons x l ih => simpa [flushedAux] using ih
+
+theorem flushedAux_feeds_append (l : List Bytes) (rest : List Event) :
+    ∀ (p q : Bool), ∃ p', flushedAux p q (l.map Event.feed ++ rest) = flushedAux p' q rest := by
+  induction l with
+  | nil => intro p q; exact ⟨p, rfl⟩
+  | cons x l ih =>
+    intro p q
+    obtain ⟨p', hp'⟩ := ih false q
+    exact ⟨p', by simpa [flushedAux] using hp'⟩
+
+theorem flushedAux_prebufs_append (l : List Bytes) (rest : List Event) :
+    ∀ (p q : Bool), ∃ p', flushedAux p q (l.map Event.prebuf ++ rest) = flushedAux p' q rest := by
+  induction l with
+  | nil => intro p q; exact ⟨p, rfl⟩
+  | cons x l ih =>
+    intro p q
+    obtain ⟨p', hp'⟩ := ih true q
+    exact ⟨p', by simpa [flushedAux] using hp'⟩
+
+/-- The Socket exists before the first byte: every segmentation. -/
+theorem holds_run_feeds (env : Env) (app : App) (segs : List Bytes) (late : List Event)
+    (happ : AppOK app) (hmal : malformed env segs.flatten = true)
+    (hlate : late.all lateEv = true) :
+    let evs := Event.new :: segs.map Event.feed ++ late
+    holds env ⟨app, evs⟩ (Scenario.run env ⟨app, evs⟩).log = true := by
+  intro evs
+  have hfed : Scenario.fed (Event.new :: segs.map Event.feed) = segs.flatten := by
+    rw [fed_cons, fed_feeds]; rfl
+  exact holds_run env app (Event.new :: segs.map Event.feed) late happ
+    (by rw [List.all_cons, arrival_feeds]; rfl)
+    (by simp only [flushed, flushedAux]; exact flushedAux_feeds true segs)
+    (by rw [hfed]; exact hmal) hlate
+
+/-- `k` leading segments are in the transport before the Socket is constructed; the queued
+    initial read runs at a `turn` that comes after `j` more segments were fed (`j = 0`: at once). -/
+theorem holds_run_prebuf (env : Env) (app : App) (segs : List Bytes) (k j : Nat) (late : List Event)
+    (happ : AppOK app) (hmal : malformed env segs.flatten = true)
+    (hlate : late.all lateEv = true) :
+    let evs := (segs.take k).map Event.prebuf ++ [Event.new] ++
+               ((segs.drop k).take j).map Event.feed ++ [Event.turn] ++
+               ((segs.drop k).drop j).map Event.feed ++ late
+    holds env ⟨app, evs⟩ (Scenario.run env ⟨app, evs⟩).log = true := by
+  intro evs
+  have hfed : Scenario.fed ((segs.take k).map Event.prebuf ++ [Event.new] ++
+      ((segs.drop k).take j).map Event.feed ++ [Event.turn] ++
+      ((segs.drop k).drop j).map Event.feed) = segs.flatten := by
+    simp only [fed_append, fed_feeds, fed_prebufs]
+    have h1 : Scenario.fed [Event.new] = [] := rfl
+    have h2 : Scenario.fed [Event.turn] = [] := rfl
+    rw [h1, h2, List.append_nil, List.append_nil, List.append_assoc, ← List.flatten_append,
+      List.take_append_drop, ← List.flatten_append, List.take_append_drop]
+  have hflu : flushed ((segs.take k).map Event.prebuf ++ [Event.new] ++
+      ((segs.drop k).take j).map Event.feed ++ [Event.turn] ++
+      ((segs.drop k).drop j).map Event.feed) = true := by
+    have e : (segs.take k).map Event.prebuf ++ [Event.new] ++
+        ((segs.drop k).take j).map Event.feed ++ [Event.turn] ++
+        ((segs.drop k).drop j).map Event.feed =
+        (segs.take k).map Event.prebuf ++ (Event.new ::
+          (((segs.drop k).take j).map Event.feed ++ (Event.turn ::
+            ((segs.drop k).drop j).map Event.feed))) := by
+      simp only [List.append_assoc, List.cons_append, List.nil_append]
+    rw [e, flushed]
+    obtain ⟨p1, h1⟩ := flushedAux_prebufs_append (segs.take k) (Event.new ::
+          (((segs.drop k).take j).map Event.feed ++ (Event.turn ::
+            ((segs.drop k).drop j).map Event.feed))) false false
+    rw [h1]
+    simp only [flushedAux]
+    obtain ⟨p2, h2⟩ := flushedAux_feeds_append ((segs.drop k).take j) (Event.turn ::
+            ((segs.drop k).drop j).map Event.feed) p1 true
+    rw [h2]
+    simp only [flushedAux, if_true]
+    exact flushedAux_feeds false _
+  exact holds_run env app _ late happ
+    (by simp only [List.all_append, arrival_feeds, arrival_prebufs]; rfl)
+    hflu (by rw [hfed]; exact hmal) hlate
+
+/-! ### non-vacuity -/
+
+/-- an application with non-trivial reactions that is in the class `AppOK` -/
+def appEx : App :=
+  { onDc := fun _ => [.wh, .write [1, 2], .note .rcf],
+    onBw := fun s => if s.closeCalled then [.close, .write [3]] else [.avail],
+    onRcf := fun _ => [.err 500 none],
+    onRr := fun _ => [.readAll, .note (.misc 1 [2])] }
+
+example : AppOK appEx :=
+  ⟨fun _ => rfl, fun _ => rfl, fun s => by simp only [appEx]; split <;> rfl, fun _ => rfl⟩
+
+/-- every URL is valid; the error page itself contains a blank line -/
+def envEx : Env := { url := fun p => some (p, []), errPage := fun _ _ => [60, 13, 10, 13, 10, 62] }
+
+/-- `GET / HTTP/1.2` + blank line + one more byte: the version is not acceptable -/
+def strmEx : Bytes :=
+  lit ['G','E','T',' ','/',' ','H','T','T','P','/','1','.','2','\r','\n','\r','\n','x']
+
+/-- the stream cut inside the blank line, the first part in the transport before the Socket
+    exists; later the peer closes, bytes are acknowledged and the stream arrives once more -/
+def scEx : Scenario :=
+  { app := appEx,
+    events := [.prebuf (strmEx.take 16), .new, .feed (strmEx.drop 16), .turn, .peerClose, .ack 3,
+      .ackAll, .feed strmEx] }
+
+example : malformed envEx strmEx = true := by decide
+example : malformed envEx (Scenario.fed scEx.events) = true := by decide
+example : holds envEx scEx (Scenario.run envEx scEx).log = true := by decide +kernel
+
+/-- the hypotheses of `holds_run_prebuf` are satisfiable (`k = 1`, `j = 0`) -/
+example :
+    AppOK appEx ∧ malformed envEx [strmEx.take 16, strmEx.drop 16].flatten = true ∧
+    [Event.peerClose, .ack 3, .ackAll, .feed strmEx, .api (.write [7]), .api (.note .rr)].all
+      lateEv = true :=
+  ⟨⟨fun _ => rfl, fun _ => rfl, fun s => by simp only [appEx]; split <;> rfl, fun _ => rfl⟩,
+   by decide, by decide⟩
+
+/-- and of `holds_run` for the events of `scEx` (`arr` = the first four) -/
+example : (scEx.events.take 4).all arrival = true ∧ flushed (scEx.events.take 4) = true ∧
+    malformed envEx (Scenario.fed (scEx.events.take 4)) = true ∧
+    (scEx.events.drop 4).all lateEv = true := by decide
 
 end Qhttp.C04
